@@ -385,7 +385,7 @@ def do_oneof(m, rng, spec, conv, n):
 
 
 def do_datetime(m, rng, spec, conv, n):
-    is_time = spec[0] == "Time"
+    is_time = spec[0].split(":")[-1] == "Time"
     for _ in range(n):
         v = values.gen_time(rng) if is_time else values.gen_datetime(rng)
         name = v.tzname()
@@ -448,7 +448,10 @@ def run_shard(ctx):
         specs.append(("DateTime", req))
         specs.append(("Time", req))
     specs += [("ListElement", ("String", 32, False)), ("ListElement", ("Integer", 4, False)), ("ListElement", ("OneOf", ("MONDAY", "TUESDAY"), False)),
-              ("ListElement", ("NagString", 5, False)), ("ListElement", ("Decimal", 2, False))]
+              ("ListElement", ("NagString", 5, False)), ("ListElement", ("Decimal", 2, False)),
+              # members that are required (None is no member), and the remaining member types
+              ("ListElement", ("String", 32, True)), ("ListElement", ("Integer", 4, True)), ("ListElement", ("OneOf", ("MONDAY", "TUESDAY"), True)),
+              ("ListElement", ("Decimal", None, True)), ("ListElement", ("Bool", True)), ("ListElement", ("DateTime", False)), ("ListElement", ("Time", True))]
     for i, spec in enumerate(specs):
         if i % ctx.nshards != ctx.shard:
             continue
@@ -470,8 +473,11 @@ def run_shard(ctx):
             do_oneof(m, rng, (label[0], inner[1], inner[2]), conv, n)
         else:
             do_datetime(m, rng, label, conv, n)
-        if spec[0] != "ListElement":
-            m.none_law(conv, label, spec[-1])
+        # None: through exactly when the element (for a repeated element: its member type) is optional
+        m.none_law(conv, label, inner[-1])
+        if kind not in ("String", "NagString"):
+            # the empty string is no value of any type but the strings
+            m.reject_write(conv, label, "", "empty-string-accepted-on-write")
         if i % 25 == 0:
             ctx.sample({"parameterisation": repr(spec)})
 
@@ -507,5 +513,6 @@ def run_one(ctx, T, label):
         do_oneof(m, rng, lab, conv, 40)
     else:
         do_datetime(m, rng, lab, conv, 40)
-    if not label[0].startswith("ListElement:"):
-        m.none_law(conv, lab, inner[-1])
+    m.none_law(conv, lab, inner[-1])
+    if name not in ("String", "NagString"):
+        m.reject_write(conv, lab, "", "empty-string-accepted-on-write")
